@@ -12,7 +12,7 @@ pub const META_C11: Meta = Meta {
     assumptions: &["fits() in harness/src/scope.rs is the trusted judgement (60 lines, parse-time scope rule as stated in C11)"],
     quick_cases: 150000,
     thorough_cases: 3000000,
-    floor: 500,
+    floor: 12000,
 };
 
 fn exprs_mut<'a>(items: &'a mut [Item], out: &mut Vec<&'a mut Expr>) {
